@@ -12,7 +12,7 @@ const SPEC: Spec = Spec {
         "x86_64 only: the 32-bit digit build and the non-x86 adc/sbb fallbacks are not exercised",
     ],
     bounds_quick: "S1 Dense(S5,4)^2; S2 Runs(S5,2,12)^2; S3 block-boundary lengths {4,5,6,9,10,11,14,15,16,20,21}x{+0,+1,+5,+6} with Runs(S5,2,.); S4 dense LCG digit strings, all length pairs <= 24 x 3x3 family members",
-    bounds_thorough: "S1 Dense(S5,4)^2; S2 Runs(S5,3,17)^2 (panicking forms on the Runs(S5,3,10) sub-square); S3 as quick with Runs(S5,3,.) for the shorter operand; S4 length pairs <= 48",
+    bounds_thorough: "S1 Dense(S5,4)^2; S2 Runs(S5,3,17)^2 (panicking forms on the Runs(S5,3,10) sub-square); S3 as quick with Runs(S5,3,.) for the shorter operand; S4 length pairs <= 48 x 7x7 family members",
     hang_secs: 120,
     probes: Some(probes),
     max_workers: 16,
@@ -233,8 +233,9 @@ fn body(ctx: &mut Ctx) {
                 if !take {
                     continue;
                 }
-                for sa in 0..3u64 {
-                    for sb in 3..6u64 {
+                let ns = tier.pick(3u64, 7u64);
+                for sa in 0..ns {
+                    for sb in ns..2 * ns {
                         let a = mk(&alpha::lcg_digits(la, sa));
                         let b = mk(&alpha::lcg_digits(lb, sb));
                         pair(ctx, &a, &b, la <= 8, true);
